@@ -29,6 +29,10 @@ structure Frame where
   g : G := []
   /-- the cell local `ch` (rep() only) -/
   cell : ECell := {}
+  /-- the tab stop of the enclosing loop over vt.tabStop -/
+  tab : Int := 0
+  /-- the local slice `tabs` (tbc() only) -/
+  acc : List Int := []
 
 def Frame.get (s : Frame) : Loc → Int
   | .curRow => s.e.cur.row
@@ -65,6 +69,7 @@ def evalEx (pm : List Param) (s : Frame) (lvs : List Int) : Ex → Int
   | .pm k => pmGet pm k
   | .lenPm => pm.length
   | .psParams => ps pm
+  | .tab => s.tab
 
 /-- every `pm[k][0]` inside the expression is in range -/
 def exOk (pm : List Param) : Ex → Bool
@@ -176,6 +181,13 @@ def evalG (pm : List Param) (s : Frame) : Stmt → List Int → Grid → M (Grid
     let g' ← modCell g (evalEx pm s lvs r) (evalEx pm s lvs c) (fun x => { x with g := s.cell.g, w := s.cell.w })
     .ok (g', .norm)
   | .loadCell _ _, _, g => .ok (g, .norm)    -- excluded by `wf`
+  | .tabsNew, _, g => .ok (g, .norm)         -- excluded by `wf`
+  | .tabsAppendTab, _, g => .ok (g, .norm)   -- excluded by `wf`
+  | .tabsStore, _, g => .ok (g, .norm)       -- excluded by `wf`
+  | .tabsClear, _, g => .ok (g, .norm)       -- excluded by `wf`
+  | .tabsPushCol, _, g => .ok (g, .norm)     -- excluded by `wf`
+  | .forTabs _, _, g => .ok (g, .norm)       -- excluded by `wf`
+  | .forTabsDown _, _, g => .ok (g, .norm)   -- excluded by `wf`
   | .prim _, _, g => .ok (g, .norm)          -- excluded by `wf`
   | .assign _ _, _, g => .ok (g, .norm)      -- excluded by `wf`
   | .setLastCol _, _, g => .ok (g, .norm)    -- excluded by `wf`
@@ -195,6 +207,13 @@ def callFn (f : Fn) (n : Int) (e : Emu) : M Emu :=
   | .scrollUp => scrollUp e n
   | .scrollDown => scrollDown e n
 
+/-- A loop over the tab stops: the body may assign to scalars, `break` and `continue`. -/
+def tabLoop (body : Int → Frame → M (Frame × Sig)) : List Int → Frame → M Frame
+  | [], s => .ok s
+  | t :: rest, s => do
+    let r ← body t s
+    if r.2 = .brk ∨ r.2 = .ret then .ok r.1 else tabLoop body rest r.1
+
 /-- Statements at function level. -/
 def evalS (pm : List Param) : Stmt → Frame → M (Frame × Sig)
   | .skip, s => .ok (s, .norm)
@@ -212,6 +231,21 @@ def evalS (pm : List Param) : Stmt → Frame → M (Frame × Sig)
     let e' ← callFn f (match arg with | some x => evalEx pm s [] x | none => 0) s.e
     .ok ({ s with e := e' }, .norm)
   | .unknown _, s => .ok (s, .norm)
+  | .tabsNew, s => .ok ({ s with acc := [] }, .norm)
+  | .tabsAppendTab, s => .ok ({ s with acc := s.acc ++ [s.tab] }, .norm)
+  | .tabsStore, s => .ok ({ s with e := { s.e with tabs := s.acc } }, .norm)
+  | .tabsClear, s => .ok ({ s with e := { s.e with tabs := [] } }, .norm)
+  | .tabsPushCol, s => .ok ({ s with e := { s.e with tabs := s.e.tabs ++ [s.e.cur.col] } }, .norm)
+  | .forTabs body, s => do
+    let s' ← tabLoop (fun t s => do
+      let r ← evalS pm body { s with tab := t }
+      .ok ({ r.1 with tab := s.tab }, r.2)) s.e.tabs s
+    .ok (s', .norm)
+  | .forTabsDown body, s => do
+    let s' ← tabLoop (fun t s => do
+      let r ← evalS pm body { s with tab := t }
+      .ok ({ r.1 with tab := s.tab }, r.2)) s.e.tabs.reverse s
+    .ok (s', .norm)
   | .loadCell r c, s => do
     let row ← getI s.e.active (evalEx pm s [] r)
     let x ← getI row (evalEx pm s [] c)
@@ -246,6 +280,8 @@ def noUnknown : Stmt → Bool
   | .ite _ t f => noUnknown t && noUnknown f
   | .forUp _ _ b => noUnknown b
   | .forDown _ _ b => noUnknown b
+  | .forTabs b => noUnknown b
+  | .forTabsDown b => noUnknown b
   | .unknown _ => false
   | _ => true
 
@@ -272,6 +308,17 @@ def loopWf (allowRet : Bool) : Stmt → Bool
   | .setCharFromCell _ _ => true
   | _ => false
 
+/-- inside a loop over the tab stops: scalar assignments and control flow only -/
+def tabLoopWf : Stmt → Bool
+  | .skip => true
+  | .seq a b => tabLoopWf a && tabLoopWf b
+  | .ite _ t f => tabLoopWf t && tabLoopWf f
+  | .assign _ _ => true
+  | .tabsAppendTab => true
+  | .brk => true
+  | .cont => true
+  | _ => false
+
 /-- function level; `tail` = nothing follows this statement in the function -/
 def topWf (tail : Bool) : Stmt → Bool
   | .seq a b => topWf false a && topWf tail b
@@ -280,6 +327,8 @@ def topWf (tail : Bool) : Stmt → Bool
   | .cont => false
   | .forUp _ _ b => loopWf tail b
   | .forDown _ _ b => loopWf tail b
+  | .forTabs b => tabLoopWf b
+  | .forTabsDown b => tabLoopWf b
   | _ => true
 
 def Body.wf (b : Body) : Bool := topWf true b.stmt
